@@ -40,6 +40,14 @@ func (sc *SyncClock) LocalTime() time.Time {
 
 // Decode .
 func (sc *SyncClock) Decode(data []byte) (ok bool) {
+	// 只接受格式完整的发送者报告：版本 2、类型 200、长度域与包长相符且含完整的 sender info（28 字节）；
+	// 否则一个碰巧第二字节为 200 的垃圾 RTCP 包会把该轨道的时钟基准永久改成随机值
+	if len(data) < 28 || data[0]>>6 != 2 {
+		return false
+	}
+	if n := (int(binary.BigEndian.Uint16(data[2:])) + 1) * 4; n < 28 || n > len(data) {
+		return false
+	}
 	if data[1] == 200 {
 		msw := binary.BigEndian.Uint32(data[8:])
 		lsw := binary.BigEndian.Uint32(data[12:])
